@@ -2,10 +2,12 @@
 # Build the framework from files on disk only (offline): regenerate coq/Gen from /repo and compile the
 # whole Coq development (full .vo build).
 set -e
-cd /verif
+DIR=$(cd "$(dirname "$0")" && pwd)
+cd "$DIR"
 mkdir -p build evidence replays coq/Gen
-export PYTHONPATH=/repo PYTHONHASHSEED=0 PYTHONWARNINGS=ignore
-/venv/bin/python translator/units.py /verif/coq/Gen > build/translator_status.json 2> >(grep -v conda.cli >&2) || true
+export VERIF_REPO=${VERIF_REPO:-/repo}
+export PYTHONPATH=$VERIF_REPO PYTHONHASHSEED=0 PYTHONWARNINGS=ignore
+/venv/bin/python translator/units.py "$DIR/coq/Gen" > build/translator_status.json 2> >(grep -v conda.cli >&2) || true
 cd coq
 coq_makefile -f _CoqProject -o Makefile $(ls Model/*.v Proofs/*.v Gen/*.v Props/*.v Harness/*.v 2>/dev/null) > /dev/null
 timeout 3000 make -k -j16 > ../build/setup_make.log 2>&1 || { tail -30 ../build/setup_make.log; echo "setup: coq build failed (checks will report)"; }
